@@ -23,6 +23,34 @@ pub(crate) mod kani_oti {
         assert!(false, "MARKER C19 accepted more than 56403 symbols per source block");
     }
 
+    // C19: symbol size not a multiple of the alignment is refused (loop-free, complete)
+    #[kani::proof]
+    pub(crate) fn oti_new_refuses_misaligned() {
+        let f: u64 = kani::any();
+        let t: u16 = kani::any();
+        let z: u8 = kani::any();
+        let n: u16 = kani::any();
+        let al: u8 = kani::any();
+        kani::assume(t > 0 && z > 0 && al > 0);
+        kani::assume(t % (al as u16) != 0);
+        let _ = ObjectTransmissionInformation::new(f, t, z, n, al);
+        assert!(false, "MARKER C19 accepted a symbol size that is not a multiple of the alignment");
+    }
+
+    // C19: transfer length above 942574504275 is refused (loop-free, complete)
+    #[kani::proof]
+    pub(crate) fn oti_new_refuses_long_object() {
+        let f: u64 = kani::any();
+        let t: u16 = kani::any();
+        let z: u8 = kani::any();
+        let n: u16 = kani::any();
+        let al: u8 = kani::any();
+        kani::assume(t > 0 && z > 0 && al > 0);
+        kani::assume(f > 942574504275);
+        let _ = ObjectTransmissionInformation::new(f, t, z, n, al);
+        assert!(false, "MARKER C19 accepted a transfer length above 942574504275");
+    }
+
     // C19: an accepted configuration reports exactly the values it was given (loop-free, complete)
     #[kani::proof]
     pub(crate) fn oti_new_reports_arguments() {
@@ -95,5 +123,109 @@ pub(crate) mod kani_tuple {
         assert!(1 <= a1 && a1 < p1, "C15 1 <= a1 < P1");
         assert!(b1 < p1, "C15 b1 < P1");
         kani::cover!(idx == 118 && x == 3158229, "reach: the ISI whose y is 2^32 - 1");
+    }
+}
+
+#[cfg(kani)]
+pub(crate) mod kani_wire {
+    use super::super::*;
+
+    // C13: PayloadId wire layout (RFC 6330 3.2): SBN, then 24-bit ESI big-endian; lossless both ways. Loop-free: complete.
+    #[kani::proof]
+    pub(crate) fn payload_id_value_roundtrip() {
+        let sbn: u8 = kani::any();
+        let esi: u32 = kani::any();
+        kani::assume(esi < 16777216);
+        let id = PayloadId::new(sbn, esi);
+        assert!(id.source_block_number() == sbn && id.encoding_symbol_id() == esi, "C13 PayloadId accessors");
+        let b = id.serialize();
+        assert!(b[0] == sbn, "C13 byte 0 is the source block number");
+        assert!(u32::from_be_bytes([0, b[1], b[2], b[3]]) == esi, "C13 bytes 1..4 are the ESI big-endian");
+        let back = PayloadId::deserialize(&b);
+        assert!(back == id, "C13 deserialize(serialize(id)) == id");
+        kani::cover!(esi == 0xABCDEF && sbn == 0x12, "reach");
+    }
+
+    #[kani::proof]
+    pub(crate) fn payload_id_bytes_roundtrip() {
+        let b: [u8; 4] = kani::any();
+        let id = PayloadId::deserialize(&b);
+        assert!(id.source_block_number() == b[0], "C13 SBN is byte 0");
+        assert!(id.encoding_symbol_id() == u32::from_be_bytes([0, b[1], b[2], b[3]]), "C13 ESI is bytes 1..4 big-endian");
+        assert!(id.encoding_symbol_id() < 16777216, "C13 parsed ESI is 24-bit");
+        assert!(id.serialize() == b, "C13 serialize(deserialize(b)) == b");
+        kani::cover!(b[1] == 0xFF && b[3] == 1, "reach");
+    }
+
+    #[kani::proof]
+    pub(crate) fn payload_id_refuses_25_bit_esi() {
+        let sbn: u8 = kani::any();
+        let esi: u32 = kani::any();
+        kani::assume(esi >= 16777216);
+        let _ = PayloadId::new(sbn, esi);
+        assert!(false, "MARKER C13 PayloadId::new accepted an ESI >= 2^24");
+    }
+
+    // C13: OTI wire layout (RFC 6330 3.3.2/3.3.3): 40-bit F, reserved, 16-bit T | Z, 16-bit N, Al; all big-endian.
+    // deserialize is onto the representable values (F < 2^40), so this covers every representable value.
+    #[kani::proof]
+    pub(crate) fn oti_bytes_roundtrip() {
+        let b: [u8; 12] = kani::any();
+        let c = ObjectTransmissionInformation::deserialize(&b);
+        assert!(c.transfer_length() == u64::from_be_bytes([0, 0, 0, b[0], b[1], b[2], b[3], b[4]]), "C13 F is bytes 0..5 big-endian");
+        assert!(c.symbol_size() == u16::from_be_bytes([b[6], b[7]]), "C13 T is bytes 6..8 big-endian");
+        assert!(c.source_blocks() == b[8], "C13 Z is byte 8");
+        assert!(c.sub_blocks() == u16::from_be_bytes([b[9], b[10]]), "C13 N is bytes 9..11 big-endian");
+        assert!(c.symbol_alignment() == b[11], "C13 Al is byte 11");
+        let s = c.serialize();
+        let mut want = b;
+        want[5] = 0;
+        assert!(s == want, "C13 serialize(deserialize(b)) == b except the reserved byte, which is zero");
+        let back = ObjectTransmissionInformation::deserialize(&s);
+        assert!(back == c, "C13 deserialize(serialize(x)) == x");
+        kani::cover!(b[0] == 0xDB && b[5] == 0x77 && b[11] == 8, "reach");
+    }
+
+    // C13: values built by the constructor serialise to the same layout
+    #[kani::proof]
+    pub(crate) fn oti_value_roundtrip() {
+        let f: u64 = kani::any();
+        let t: u16 = kani::any();
+        let z: u8 = kani::any();
+        let n: u16 = kani::any();
+        let al: u8 = kani::any();
+        kani::assume(al > 0 && t > 0 && z > 0 && f <= 56403 && t % (al as u16) == 0);
+        let c = ObjectTransmissionInformation::new(f, t, z, n, al);
+        let s = c.serialize();
+        assert!(u64::from_be_bytes([0, 0, 0, s[0], s[1], s[2], s[3], s[4]]) == f, "C13 F serialised big-endian in 40 bits");
+        assert!(s[5] == 0, "C13 reserved byte is zero");
+        assert!(u16::from_be_bytes([s[6], s[7]]) == t && s[8] == z && u16::from_be_bytes([s[9], s[10]]) == n && s[11] == al, "C13 T,Z,N,Al serialised");
+        assert!(ObjectTransmissionInformation::deserialize(&s) == c, "C13 deserialize(serialize(x)) == x");
+        kani::cover!(f == 56403 && t == 1024 && al == 8, "reach");
+    }
+
+    // C13 (bounded stand-in for any-length packets, see V-PKT): payload length <= 8
+    #[kani::proof]
+    #[kani::unwind(14)]
+    pub(crate) fn packet_roundtrip_bounded() {
+        let sbn: u8 = kani::any();
+        let esi: u32 = kani::any();
+        kani::assume(esi < 16777216);
+        let len: usize = kani::any();
+        kani::assume(len <= 8);
+        let raw: [u8; 8] = kani::any();
+        let data = raw[..len].to_vec();
+        let p = EncodingPacket::new(PayloadId::new(sbn, esi), data);
+        let s = p.serialize();
+        assert!(s.len() == 4 + len, "C13 packet is 4 + payload bytes");
+        let idb = p.payload_id().serialize();
+        assert!(s[0] == idb[0] && s[1] == idb[1] && s[2] == idb[2] && s[3] == idb[3], "C13 packet starts with the payload id");
+        let k: usize = kani::any();
+        kani::assume(k < len);
+        assert!(s[4 + k] == raw[k], "C13 payload bytes follow the id");
+        let back = EncodingPacket::deserialize(&s);
+        assert!(back == p, "C13 deserialize(serialize(p)) == p");
+        assert!(back.serialize() == s, "C13 serialize(deserialize(buf)) == buf");
+        kani::cover!(len == 8, "reach");
     }
 }
